@@ -1,14 +1,15 @@
 SPECIFICATION Spec
 CONSTANTS
-  NModelsSet = {1, 2, 3}
+  NModelsSet = {3}
   Tables = {1, 2}
   FirstExprs = {1, 2, 3, 4, 5, 6, 7, 8, 9, 10}
-  SecondExprs = {2, 3, 6, 10}
-  ModelArgs = {0, 1, 2, 99, 3}
+  SecondExprs = {2, 3, 6}
+  ModelArgs = {0, 1, 3, 4, 99, 98, 97}
   FlagSets = {1, 2, 3}
 INVARIANT L_Dom
 INVARIANT L_Refusals
 INVARIANT L_Copies
+INVARIANT L_Listed
 INVARIANT L_Positions
 INVARIANT L_Annotations
 INVARIANT L_Bonds
